@@ -22,6 +22,9 @@ mod unproved;
 mod dercodecs;
 #[path = "c17_der.rs"]
 mod der; // D16c: ASN1Writer + CertRef::as_asn1 (kind `der`)
+// D16b: mDNS wire format, modelled (sub-stream `mdns2`)
+#[path = "c17_mdns.rs"]
+mod mdns2;
 
 /// where the last panic happened (recorded by the hook installed in `install_hook`)
 pub static LAST_PANIC: std::sync::Mutex<String> = std::sync::Mutex::new(String::new());
@@ -537,6 +540,7 @@ pub fn run_op(kind: &str, op: &str) -> String {
         "plainhdr" => plain::run(op),
         "protohdr" => protoh::run(op),
         "status" => status::run(op),
+        "mdns2" => mdns2::run(op), // D16b
         k => {
             if let Some(r) = more::run_op(k, op) {
                 r
@@ -993,6 +997,7 @@ pub fn gen(a: &Args) -> String {
     unproved::gen(&mut r, &mut out, a.thorough, &mut id);
     dercodecs::gen(&mut r, &mut out, a.thorough, &mut id); // D16d
     der::gen(&mut r, &mut out, a.thorough, &mut id); // D16c
+    mdns2::gen(&mut r, &mut out, a.thorough, &mut id); // D16b
     out.finish()
 }
 
